@@ -133,7 +133,7 @@ def gen_osp(cfg: dict, rng: Rng, max_hosts: int = 4) -> dict:
             if rng.chance(1, 3):
                 rc["acl"] = {}
                 if rng.chance(1, 2):
-                    rc["acl"]["num_rules"] = rng.choice([0, 2, 5])
+                    rc["acl"]["num_rules"] = rng.choice([1, 2, 5])  # 0 would be a Dict without sub-spaces (F-C02-2: not flattenable)
                 if rng.chance(1, 2):
                     rc["acl"]["ip_list"] = ips[:2]
                 if rng.chance(1, 3):
@@ -379,7 +379,8 @@ def run_recipe(ctx, recipe: dict, chaos: Optional[Callable] = None) -> dict:
                     fail("<api>", ep, step, "flatten(obs) differs from returned array")
                 want_len = int(gymnasium.spaces.flatten_space(nested_sp).shape[0])
                 if len(env_obs) != want_len or tuple(sp_now.shape) != (want_len,):
-                    fail("<api>", ep, step, f"flattened length {len(env_obs)} is not flatten_space's {want_len}")
+                    fail("<api>", ep, step, f"flattened observation has {len(env_obs)} entries, flatten_space(current nested space) {want_len}, "
+                                            f"env.observation_space declares shape {tuple(sp_now.shape)}")
                 tr0 = tracks.get(f"{ep}:{env._agent_name}")
                 if tr0 is not None:
                     tr0["flat"].append((len(tr0["lines"]) - 1, int(len(env_obs)), int(np.sum(env_obs))))
@@ -475,7 +476,8 @@ def check_env(ctx, rname: str, res: dict, model_by_track: Dict[str, List[str]], 
     for f in res["oracle_fail"]:
         what = f["bad"][0] if f["bad"] else "?"
         if f["agent"] == "<api>":
-            sig = {"kind": "env-api", "what": what.split(" (")[0].split(" is not flatten_space")[0][:90], "property_oracle": "observation_space.contains(obs)"}
+            import re
+            sig = {"kind": "env-api", "what": re.sub(r"\d+", "N", what.split(" (")[0])[:110], "property_oracle": "observation_space.contains(obs)"}
         else:
             leaf = what.rsplit("/", 1)[-1]
             sig = {"kind": "env-not-in-space", "leaf": leaf.split(":", 1)[-1].split(":keys")[0].rstrip("0123456789"), "property_oracle": "observation_space.contains(obs)"}
